@@ -29,7 +29,8 @@ RULE = ("Sources from the corpus (W1), rendered documents (W2), fault-injected (
         "json.dumps; the corpus envelopes equal the golden .source/.ast/.pickles/.errors.ndjson; sequences of 2..6 sources through one "
         "GherkinEvents equal the solo envelopes with ids shifted by the ids drawn before, in the order given; source_event(path) "
         "returns the file's text byte for byte; scripts.generate_events prints the same envelopes as JSON lines.  File-access audit: "
-        "enum opens no file.  Distinct = (source hash, options).")
+        "enum opens no file.  Distinct = (source hash, options)."
+        " Also: every source also through a stream whose parser stops at the first error; envelopes yielded for earlier sources of a stream are re-checked for later modification.")
 ASSUMPTIONS = ["R7 encodes the Cucumber Messages shapes this library emits and accepts all 275 golden envelopes (setup_cmd)",
                "the content oracle for gherkinDocument/pickle envelopes is a direct parse+compile with fresh objects: C17 is about the stream layer; parser and compiler content are C03-C11"]
 DECIDING = ["enum_calls", "envelopes_validated", "corpus_envelopes_compared", "streams_checked", "cli_runs"]
